@@ -89,5 +89,5 @@ Proof. unfold q_close. apply Qle_bool_iff. setoid_replace (x - x) with 0 by ring
 Lemma notes_close_refl l : notes_close (fun _ => 0) l l = true.
 Proof.
   induction l as [|[[c t] n] l IH]; [reflexivity|]. cbn [notes_close]. rewrite Z.eqb_refl, q_close_refl, IH.
-  change (2 * 0) with 0. rewrite q_close_refl. reflexivity.
+  change (0 + 0) with 0. rewrite q_close_refl. reflexivity.
 Qed.
